@@ -1,0 +1,87 @@
+//! Verification hooks. Compiled only with the cargo feature `verif-hooks` (off by default); with the
+//! feature off none of this exists and no call site is compiled.
+//!
+//! * read-only access to the statically compiled u32 circuits and to the limbs of a [`LookupTable`];
+//! * yield points in the two `thread::scope` loops: a no-op unless a harness installs a callback
+//!   with [`set_yield_hook`]; the callback may block the calling worker, which lets an external
+//!   controller decide the interleaving.
+
+use std::cell::Cell;
+use std::sync::atomic::{AtomicUsize, Ordering};
+
+use poulpy_hal::layouts::VecZnx;
+
+use crate::blind_rotation::LookupTable;
+
+/// `(site, worker, step)`
+pub type YieldFn = fn(u32, usize, usize);
+
+/// circuit evaluation worker (`execute_bdd_circuit_multi_thread`): step = output bit index
+pub const SITE_EVAL: u32 = 1;
+/// integer preparation worker (`fhe_uint_prepare_custom_multi_thread`): step = 4*bit + stage (0..=2)
+pub const SITE_PREPARE: u32 = 2;
+/// one CMux inside `eval_level`: worker from the thread-local id, step = slot index in the level
+pub const SITE_CMUX: u32 = 3;
+/// issued once by the spawning thread after all workers of a site were spawned: worker = site, step = number of workers
+pub const SITE_SPAWNED: u32 = 0;
+/// step value announcing that a worker starts
+pub const STEP_BEGIN: usize = usize::MAX - 1;
+/// step value announcing that a worker is done (also on unwinding)
+pub const STEP_END: usize = usize::MAX;
+
+static YIELD: AtomicUsize = AtomicUsize::new(0);
+
+thread_local! {
+    static WORKER: Cell<usize> = const { Cell::new(usize::MAX) };
+}
+
+/// Installs (or removes) the yield callback.
+pub fn set_yield_hook(f: Option<YieldFn>) {
+    YIELD.store(f.map(|f| f as usize).unwrap_or(0), Ordering::SeqCst);
+}
+
+#[inline]
+pub fn verif_yield(site: u32, worker: usize, step: usize) {
+    let p: usize = YIELD.load(Ordering::SeqCst);
+    if p != 0 {
+        // SAFETY: the only non-zero values ever stored are `YieldFn` pointers (see `set_yield_hook`).
+        let f: YieldFn = unsafe { std::mem::transmute::<usize, YieldFn>(p) };
+        f(site, worker, step)
+    }
+}
+
+/// worker id of the current thread (usize::MAX outside a worker)
+pub fn worker() -> usize {
+    WORKER.with(|w| w.get())
+}
+
+/// Signals `STEP_END` when dropped, i.e. also when the worker unwinds.
+pub struct WorkerGuard {
+    site: u32,
+    worker: usize,
+}
+
+pub fn worker_begin(site: u32, worker: usize) -> WorkerGuard {
+    WORKER.with(|w| w.set(worker));
+    verif_yield(site, worker, STEP_BEGIN);
+    WorkerGuard { site, worker }
+}
+
+impl Drop for WorkerGuard {
+    fn drop(&mut self) {
+        WORKER.with(|w| w.set(usize::MAX));
+        verif_yield(self.site, self.worker, STEP_END);
+    }
+}
+
+pub use crate::bdd_arithmetic::verif_circuits::u32_circuits;
+
+/// Limbs of a lookup table (one `VecZnx` per extension slot).
+pub fn lut_limbs(lut: &LookupTable) -> &[VecZnx<Vec<u8>>] {
+    &lut.data
+}
+
+/// Number of positions the table was pre-rotated by when it was set.
+pub fn lut_drift(lut: &LookupTable) -> usize {
+    lut.drift
+}
